@@ -76,7 +76,9 @@ FinalOK(z0, z1, a, script, depth, dz, da) == Content(z1, dz) = FinalContent(z0, 
 \* an offered coordinate that z did not store before is stored afterwards only if something non-default lives under it
 NoResidue(z0, z1, a, script, depth, dz, da) ==
   \A p \in SeqToSet(Offers(a, script, <<>>, depth, da)) :
-      (p \notin Stored(z0) /\ p \in Stored(z1)) => \E x \in Content(z1, dz) : IsPrefix(p, x[1])
+      /\ (p \notin Stored(z0) /\ p \in Stored(z1)) => \E x \in Content(z1, dz) : IsPrefix(p, x[1])
+      \* an offered leaf coordinate, new or not, holds no element when the body left it at / set it back to the default
+      /\ (Len(p) = depth /\ p \in Stored(z1)) => \E x \in Content(z1, dz) : x[1] = p
 \* stored parts of z that no offer reaches are identical afterwards (representation level)
 Outside(z0, z1, a, script, depth, da) ==
   LET offs == SeqToSet(Offers(a, script, <<>>, depth, da))
